@@ -5,6 +5,7 @@
 mod archive;
 mod cli;
 mod enc;
+mod history;
 mod keys;
 mod repair;
 mod util;
@@ -56,6 +57,10 @@ fn main() {
         "c16" => cli::c16_cases(&mut rng, &tier, &mut out),
         "c02" => repair::c02_cases(&mut rng, &tier, &mut out),
         "c05" => repair::c05_cases(&mut rng, &tier, &mut out),
+        "c10" => history::c10_cases(&mut rng, &tier, &mut out),
+        "c12" => history::c12_cases(&mut rng, &tier, &mut out),
+        "c13" => history::c13_cases(&mut rng, &tier, &mut out),
+        "c14" => history::c14_cases(&mut rng, &tier, &mut out),
         #[cfg(feature = "scaled")]
         "c11-enc" => enc::c11_enc_cases(&mut rng, &tier, &mut out),
         other => {
